@@ -156,7 +156,48 @@ func c11Gen(rt *rapid.T) c11Case {
 		c.TestExt = true
 	}
 	c.Ctl = len(c.Graft)+len(c.Prune)+len(c.Ihave)+len(c.Iwant)+len(c.Idw) > 0 || c.Ext != 0 || rapid.Bool().Draw(rt, "emptyctl")
+	// varint boundaries: messages whose encoded size sits exactly where the length prefix grows by a byte (127|128,
+	// 16383|16384), packed under a limit that is a multiple of the per-message cost plus a small remainder, so that a
+	// size estimate that is off by one byte per message overshoots the limit
+	if rapid.IntRange(0, 7).Draw(rt, "varintMode") == 0 {
+		target := rapid.SampledFrom([]int{126, 127, 128, 129, 127, 128, 129, 126, 127, 128, 129, 128, 16383, 16384, 16385, 16511, 16512}).Draw(rt, "target")
+		topicLen := rapid.IntRange(0, 3).Draw(rt, "vt")
+		dataLen := c11DataLenFor(target, topicLen)
+		k := rapid.IntRange(1, 12).Draw(rt, "perFragment")
+		if target > 1000 {
+			k = 1 + k%4 // keep the large cases cheap
+		}
+		c.Msgs = nil
+		nm := rapid.IntRange(k, 2*k+1).Draw(rt, "vn")
+		if target > 1000 && nm > k+1 {
+			nm = k + 1
+		}
+		for i := 0; i < nm; i++ {
+			c.Msgs = append(c.Msgs, c11Msg{Topic: topicLen, Data: dataLen})
+		}
+		per := target + 2
+		if target >= 16384 {
+			per = target + 4
+		}
+		c.Limit = k*per + rapid.IntRange(-3, k+3).Draw(rt, "slack")
+		if c.Limit < 8 {
+			c.Limit = 8
+		}
+	}
 	return c
+}
+
+// c11DataLenFor: the data length that makes a message (topic of topicLen bytes, 6-byte author, 8-byte sequence number)
+// encode to exactly target bytes, found by measuring.
+func c11DataLenFor(target, topicLen int) int {
+	for n := 0; n <= target; n++ {
+		t := vfPad(1, topicLen)
+		m := &pb.Message{Topic: &t, Data: []byte(vfPad(2, n)), From: []byte(vfPad(3, 6)), Seqno: []byte(vfPad(4, 8))}
+		if m.Size() >= target {
+			return n
+		}
+	}
+	return target
 }
 
 func c11Build(c c11Case) *RPC {
